@@ -12,7 +12,7 @@ import ast
 
 from .. import terms as T
 from ..terms import const
-from ..rules import P_, run, ret_paths, raise_paths, bind_call_args, default_of
+from ..rules import P_, run, ret_paths, raise_paths, bind_call_args, default_of, resolve_under
 from ..loader import AnalysisError
 from .. import npapi
 
@@ -232,8 +232,10 @@ def rule_pipeline(ctx):
                 ctx.holds('R3', 'result axes: copies of _get_axes(o1, o2) (common-axis choice table)')
                 ctx.holds('R3', 'result built without metadata')
             else:
-                ctx.undecide('R3', 'operation(): result axes are built in a form the rule does not know (neither the own-axis / placeholder loop nor copies of _get_axes): %s'
-                             % T.show(newaxes)[:120])
+                # any other way of building them: which axis each dimension of the result carries is read off the interpreted scenarios of operation() (placeholder
+                # dimension of the left operand against a full / a single-label axis, a real single label, an empty dimension, operands of different dimensions)
+                from ..scenario_rule import rule_scenarios
+                rule_scenarios(ctx, 'R3', only='dimarray.core.operation.operation', title='result axes by name (interpreted scenarios of operation())')
             continue
         if len(appends) < 2:
             ctx.violated('R3', fi, 'newaxes loop', 'expected the two alternatives (own axis / replaced placeholder) in the result-axes loop', node=p.node)
@@ -248,9 +250,10 @@ def rule_pipeline(ctx):
             ctx.violated('R2', fi, 'options off', 'reindex=False / broadcast=False must skip the alignment steps', node=p.node)
     # ---- short-cuts
     for o1_is, o2_is, arr, other, order in ((True, False, O1, O2, 0), (False, True, O2, O1, 1)):
-        ev = run(ctx, fi, oracle=dimarray_oracle(o1_is, o2_is))
+        orc = dimarray_oracle(o1_is, o2_is)
+        ev = run(ctx, fi, oracle=orc)
         for p in ret_paths(ev):
-            v = p.value
+            v = resolve_under(p.value, orc, p.guards)
             conv = ('call', ('attr', ('name', 'np'), 'array'), (other,), ())
             conv2 = ('call', ('attr', ('name', 'np'), 'asarray'), (other,), ())
             args_ok = False
